@@ -142,13 +142,41 @@ pub mod c07 {
             assert!(s.is_none() || s2 == s, "a script that was present is unchanged");
             assert!(r.is_none() || r2 == r, "a region that was present is unchanged");
             assert!(!l2.is_empty() && s2.is_some() && r2.is_some(), "all three present afterwards");
-            assert!(maximize(l2, s2, r2).is_none(), "maximizing a maximized triple changes nothing");
+            // idempotence = this clause + `c07_full_is_fixpoint` (a triple with all three present is
+            // left alone); calling maximize again here on the symbolic result would drag the
+            // 7143-row table into every und query
+        }
+    }
+
+    /// a language known to CBMC to be non-empty (concrete `Some` discriminant): rebuilt from its own
+    /// integer form, which C17 decides is the identity
+    pub fn nonempty_language() -> Language {
+        let (l, _) = sym::any_language();
+        let raw: Option<u64> = l.into();
+        match raw {
+            Some(v) => unsafe { Language::from_raw_unchecked(v) },
+            None => {
+                k::assume(false);
+                unreachable!()
+            }
         }
     }
 
     proofs! {
     [] fn c07_laws_und() { laws(true) }
     [] fn c07_laws_lang() { laws(false) }
+
+    // every triple with language, script and region present is a fixed point (reported unchanged)
+    [] fn c07_full_is_fixpoint() {
+        let l = nonempty_language();
+        let (s, _) = sym::any_script();
+        let (r, _) = sym::any_region();
+        cover!(true);
+        assert!(maximize(l, Some(s), Some(r)).is_none(), "nothing to add: unchanged");
+        let mut li = LanguageIdentifier::from_raw_parts_unchecked(l, Some(s), Some(r), None);
+        let before = li.clone();
+        assert!(!li.maximize() && li == before, "LanguageIdentifier::maximize on a full identifier: false, unchanged");
+    }
 
     // wrapper: variants never touched, bool <=> changed, false => unchanged, second application is a no-op
     [] fn c07_wrapper_und() {
@@ -164,10 +192,7 @@ pub mod c07 {
             assert!(before.language.is_empty() || li.language == before.language);
             assert!(before.script.is_none() || li.script == before.script);
             assert!(before.region.is_none() || li.region == before.region);
-            assert!(!li.language.is_empty() && li.script.is_some() && li.region.is_some());
-            let after = li.clone();
-            assert!(!li.maximize() && li == after, "idempotent");
-            core::mem::forget(after);
+            assert!(!li.language.is_empty() && li.script.is_some() && li.region.is_some(), "all three present (with c07_full_is_fixpoint: idempotent)");
         } else {
             assert!(li == before, "false leaves the identifier unchanged");
         }
